@@ -4,7 +4,9 @@ import RreModel.C11.Spec
 Driver for C11.  obs := item;item;…  item := `<q|a|k>/<key>/<answer>/<fresh>/<hit>[/<flags>]` (see harness/src/bin/c11.rs;
   the key is opaque here — hex of the text, or a digest of it for large stores; flags classify the input situation:
   `N` negated goal, `n` negation partner asked earlier on identical facts, `p` same query earlier on permuted facts, `L` engine key
-  text > 1024 bytes, `c` same query earlier on facts that differ only behind byte 1024 of the engine key text)
+  text > 1024 bytes, `c` same query earlier on facts that differ only behind byte 1024 of the engine key text, `E` an aggregate
+  call that returns Err, `e` asked after an aggregate call failed on this engine, `w` an earlier call's engine key text differs
+  from this one's only in whitespace, `z` same query earlier on facts that differ only in entries holding Null)
   drv_c11 model  : case       ↦ `-` (the search is an abstract parameter of the model; the cache model is run in
                                  oracle mode on the observed keys with the observed fresh verdicts as `answer`)
   drv_c11 oracle : case | obs ↦ `ok <tags>` / `fail stale@<k>` (answer ≠ fresh engine's) / `fail cache-model@…`
@@ -60,6 +62,10 @@ def oracleLine (line : String) : String :=
               ++ (if items.any (·.flags.contains 'p') then ["requery_on_permuted_facts"] else [])
               ++ (if items.any (·.flags.contains 'L') then ["key_over_1024"] else [])
               ++ (if items.any (·.flags.contains 'c') then ["late_change_behind_1024"] else [])
+              ++ (if items.any (·.flags.contains 'E') then ["failed_aggregate"] else [])
+              ++ (if items.any (fun it => it.flags.contains 'e' && it.flags.contains 'N') then ["negated_goal_after_failed_aggregate"] else [])
+              ++ (if items.any (·.flags.contains 'w') then ["whitespace_lookalike_key"] else [])
+              ++ (if items.any (·.flags.contains 'z') then ["requery_absent_vs_null"] else [])
               ++ (if distinctAns > 1 then ["answer_changes", "nontrivial"] else []))
       | none => "bad-input"
     | _ => "bad-input"
